@@ -13,7 +13,13 @@ Decides one property of /verif/properties.jsonl for the CURRENT working tree of 
     own verdict to what the implementation did;
  4. writes evidence/<id>.json, prints VIOLATION / KNOWN-FINDING lines, exits 0 or 1.
 """
-import sys, os, json, time, subprocess, tempfile, shutil, hashlib, importlib, re, fcntl, random
+import sys, os, time, subprocess, tempfile, shutil, hashlib, importlib, re, fcntl, random
+
+import json as _json
+class json:  # json with a fallback for generator objects kept in Case.info
+    load = staticmethod(_json.load); loads = staticmethod(_json.loads)
+    @staticmethod
+    def dump(o, f, **kw): kw.setdefault("default", repr); return _json.dump(o, f, **kw)
 
 VERIF = os.path.dirname(os.path.dirname(os.path.abspath(__file__)))
 REPO = os.environ.get('VERIF_REPO', '/repo')
@@ -186,8 +192,9 @@ def main():
     t_start = time.time(); log = []
     mod = importlib.import_module('props.' + pid)
     tmp = tempfile.mkdtemp(prefix='cjverif_%s_' % pid)
-    evid_path = os.path.join(VERIF, 'evidence', pid + '.json')
-    os.makedirs(os.path.join(VERIF, 'evidence'), exist_ok=True)
+    evdir = os.environ.get('VERIF_EVIDENCE_DIR', os.path.join(VERIF, 'evidence'))
+    evid_path = os.path.join(evdir, pid + '.json')
+    os.makedirs(evdir, exist_ok=True)
     os.makedirs(os.path.join(VERIF, 'replays'), exist_ok=True)
     violations = []; known_hits = []; exit_code = 0
     try:
@@ -213,6 +220,8 @@ def main():
             io, mo = impl_out[i], model_out[i]
             pi, pm = mod.project(c, io), mod.project(c, mo)
             v = mod.verdict(c, io, ctx)
+            if replay and not v and i == 0 and rp.get('kind') == 'failing-input' and rp.get('impl') == io:
+                v = 'replay: the implementation still behaves as recorded: ' + str(rp.get('why'))
             if v: failing.append((i, v))
             elif pi != pm: mism.append(i)
             if mod.nontrivial(c, io): nontrivial.add(c.line)
